@@ -378,50 +378,52 @@ Definition vis (d : db) : tri (list (Z * Z)) := tmap live d.
 
 Definition ob_fail (d : db) (oldclosed : bool) : obs := Ob true [] false oldclosed None None (vis d).
 
+(* what one step can read and change: the committed tables, the last transaction id and the
+   stepping session's own transaction.  Nothing else (in particular no other session's
+   uncommitted transaction) is an input of a step. *)
+Record loc := L { l_db : db; l_last : N; l_tx : option mtx }.
+
 (* a statement run by a session that holds no transaction: implicit tx, committed at the end *)
-Definition mstep_idle (st : mstate) (s : sid) (o : op) : mstate * obs :=
-  let d := m_db st in
-  let last := m_last st in
+Definition mlocal_idle (d : db) (last : N) (o : op) : loc * obs :=
+  let same := L d last None in
   match o with
   | OBegin ro =>
       let x := mbegin d last ro in
-      (MS d last (ts s (Some x) (m_sess st)), Ob false [] true false (Some (x_cnt x)) None (vis d))
+      (L d last (Some x), Ob false [] true false (Some (x_cnt x)) None (vis d))
   | OBeginStmt =>
       let x := mbegin d last false in
-      (MS d last (ts s (Some x) (m_sess st)), Ob false [] true false (Some (x_cnt x)) None (vis d))
+      (L d last (Some x), Ob false [] true false (Some (x_cnt x)) None (vis d))
   | OSelect t lo hi =>
-      (st, Ob false (live (range_of lo hi false (tg t d))) false false None None (vis d))
-  | OClose => (st, Ob false [] false false None None (vis d))
+      (same, Ob false (live (range_of lo hi false (tg t d))) false false None None (vis d))
+  | OClose => (same, Ob false [] false false None None (vis d))
   | OBadQuery | OBadExec _ | OCommit | ORollback | OSavepoint _ | ORollbackTo _ | ORelease _ =>
-      (st, ob_fail d false)
+      (same, ob_fail d false)
   | _ =>
       match mdml d last o (mbegin d last false) with
-      | None => (st, ob_fail d false)
+      | None => (same, ob_fail d false)
       | Some x =>
           match commit_res d last x with
-          | CErr => (st, ob_fail d false)
-          | COkEmpty => (st, Ob false [] false false None (Some (x_cnt x, false)) (vis d))
+          | CErr => (same, ob_fail d false)
+          | COkEmpty => (same, Ob false [] false false None (Some (x_cnt x, false)) (vis d))
           | COk =>
               let d' := install (last + 1) (x_log x) d in
-              (MS d' (last + 1) (m_sess st), Ob false [] false false None (Some (x_cnt x, true)) (vis d'))
+              (L d' (last + 1) None, Ob false [] false false None (Some (x_cnt x, true)) (vis d'))
           end
       end
   end.
 
-(* a statement run inside the explicit transaction x held by session s *)
-Definition mstep_tx (st : mstate) (s : sid) (x : mtx) (o : op) : mstate * obs :=
-  let d := m_db st in
-  let last := m_last st in
-  let close := MS d last (ts s None (m_sess st)) in
-  let keep x' := MS d last (ts s (Some x') (m_sess st)) in
+(* a statement run inside the explicit transaction x held by the session *)
+Definition mlocal_tx (d : db) (last : N) (x : mtx) (o : op) : loc * obs :=
+  let close := L d last None in
+  let keep x' := L d last (Some x') in
   let ok x' := Ob false [] true false (Some (x_cnt x')) None (vis d) in
   match o with
-  | OBegin _ => (st, Ob true [] true false (Some (x_cnt x)) None (vis d))   (* not issued by the harness *)
-  | OBeginStmt => (close, ob_fail d true)                                  (* ErrNestedTxNotSupported *)
+  | OBegin _ => (keep x, Ob true [] true false (Some (x_cnt x)) None (vis d))   (* not issued by the harness *)
+  | OBeginStmt => (close, ob_fail d true)                                      (* ErrNestedTxNotSupported *)
   | OSelect t lo hi =>
       let '(x1, ents) := mscan d last t lo hi x in
       (keep x1, Ob false (live ents) true false (Some (x_cnt x1)) None (vis d))
-  | OBadQuery => (st, Ob true [] true false (Some (x_cnt x)) None (vis d))
+  | OBadQuery => (keep x, Ob true [] true false (Some (x_cnt x)) None (vis d))
   | OBadExec parse => (close, ob_fail d (negb parse))
   | OCommit =>
       match commit_res d last x with
@@ -429,8 +431,7 @@ Definition mstep_tx (st : mstate) (s : sid) (x : mtx) (o : op) : mstate * obs :=
       | COkEmpty => (close, Ob false [] false true None (Some (x_cnt x, false)) (vis d))
       | COk =>
           let d' := install (last + 1) (x_log x) d in
-          (MS d' (last + 1) (ts s None (m_sess st)),
-           Ob false [] false true None (Some (x_cnt x, true)) (vis d'))
+          (L d' (last + 1) None, Ob false [] false true None (Some (x_cnt x, true)) (vis d'))
       end
   | ORollback => (close, Ob false [] false true None (Some (x_cnt x, false)) (vis d))
   | OSavepoint n => let x' := m_savepoint n x in (keep x', ok x')
@@ -443,18 +444,22 @@ Definition mstep_tx (st : mstate) (s : sid) (x : mtx) (o : op) : mstate * obs :=
       match mdml d last o x with Some x' => (keep x', ok x') | None => (close, ob_fail d true) end
   end.
 
+Definition mlocal (d : db) (last : N) (ox : option mtx) (o : op) : loc * obs :=
+  match ox with
+  | None => mlocal_idle d last o
+  | Some x => mlocal_tx d last x o
+  end.
+
 Definition step := (sid * op)%type.
 Definition mstep (st : mstate) (p : step) : mstate * obs :=
-  match tg (fst p) (m_sess st) with
-  | None => mstep_idle st (fst p) (snd p)
-  | Some x => mstep_tx st (fst p) x (snd p)
-  end.
+  let '(l, ob) := mlocal (m_db st) (m_last st) (tg (fst p) (m_sess st)) (snd p) in
+  (MS (l_db l) (l_last l) (ts (fst p) (l_tx l) (m_sess st)), ob).
 
 (* the run of an interleaving of sessions: every step paired with what was observed *)
 Fixpoint mtrace (st : mstate) (steps : list step) : list (step * obs) :=
   match steps with
   | [] => []
-  | p :: r => let '(st', o) := mstep st p in (p, o) :: mtrace st' r
+  | p :: r => (p, snd (mstep st p)) :: mtrace (fst (mstep st p)) r
   end.
 Fixpoint mrun (st : mstate) (steps : list step) : mstate :=
   match steps with
